@@ -11,7 +11,7 @@ structure SuiteState where
   /-- the engine suite's engine: the store with its ttl bookkeeping (KB.MemTTL; clock in milliseconds) -/
   mem : MemTTL.State := {}
   ring : Ring := Ring.new 8
-  dellog : List (Bool × Bytes) := []
+  dellog : List DelCall := []
   /-- engine suite, TiKV transactions (KB.EngineTxn): write records, rollback marks, the timestamp oracle, and the
   batches begun by `bbegin` that are still open (id, transaction, operations with their ttl) -/
   twrites : List (Bytes × Nat) := []
@@ -381,7 +381,10 @@ def stepBackend (st : SuiteState) (toks : List String) : SuiteState × String :=
     | .error e => ({ st with b := b }, s!"compact err {errStr e}")
     | .panic => ({ st with b := b }, "compact PANIC")
   | ["dellog"] =>
-    (st, s!"dellog {joinOr (st.dellog.map (fun t => (if t.1 then "delcur:" else "del:") ++ hx t.2)) ","}")
+    (st, s!"dellog {joinOr (st.dellog.map (fun t => match t with
+      | .del ik => "del:" ++ hx ik
+      | .delcur ik => "delcur:" ++ hx ik
+      | .expire ik n => s!"expire:{hx ik}+{n}")) ","}")
   | ["parts", a, b] => (st, s!"parts {joinOr ((doPartitions c (unhx a) (unhx b)).map hx) ","}")
   | ["streamadv", a, b, r] =>
     -- a partition-parallel client: the advertised pieces, streamed one by one in the advertised order
